@@ -122,6 +122,8 @@ def run_checks(only=None, tier='quick', all_props=False):
             shutil.rmtree(d, ignore_errors=True)
     for r in rows:
         print('%-10s %-8s %s' % r)
+    if os.environ.get('SEEDED_JSON'):
+        json.dump([{'seed': a, 'status': b, 'detail': c} for a, b, c in rows], open(os.environ['SEEDED_JSON'], 'w'), indent=1)
     return rows
 
 
